@@ -565,6 +565,101 @@ def dangling_fields(P, R, rule='C14.OWN.2'):
     R.floor(rule, 3, 'locals released in the configuration unit')
 
 
+def ctype_subscripts(P, R, rule='C14.BND.4'):
+    """Every look-up in the character-class table made while a file is parsed is indexed by a byte (0..255): a text
+    with a byte >= 0x80 must be rejected as a syntax error, not read the table at a sign-extended offset.  Decided by
+    the numeric analysis on every function of the configuration unit that subscripts the table."""
+    from .. import numeric
+    unit = P.need_fn('conf_read').unit
+    n = 0
+    for f in P.unit_fns(unit):
+        exprs = [x for s in f.sites() for ex in rules.event_exprs(s.ev) for x in walk(ex)] + [x for b in f.blocks for x in walk(f.term_cond(b) or {})]
+        if not any(x.get('k') == 'idx' and is_var(x.get('base'), 'char_types') for x in exprs):
+            continue
+        an = numeric.Analysis(f)
+        if an.notes:
+            raise AnalysisBroken('numeric analysis of %s did not converge: %s' % (f.name, an.notes))
+        seen = set()
+        for o in numeric.obligations(an):
+            if o['kind'] != 'subscript' or not o['expr'].startswith('char_types['):
+                continue
+            w = o['where']
+            k = (o['expr'], getattr(w, 'key', str(w)))
+            if k in seen:
+                continue
+            seen.add(k)
+            n += 1
+            R.ob(rule, o['ok'], w if hasattr(w, 'loc') else f, 'in %s the look-up %s stays inside the table: inferred index range [%s, %s], extent %d' % (f.name, o['expr'], o['lo'], o['hi'], o['extent']),
+                 key='ctype:%s:%s' % (f.name, o['expr']))
+    R.floor(rule, 3, 'character-table look-ups in the configuration parser')
+
+
+FREES = ('xfree', 'free')
+
+
+def freed_fields(P, R, rule='C14.OWN.3'):
+    """A pointer member released in place (`xfree(obj->f)`) does not stay in the object: on every path to the exit the
+    member is re-assigned, or the storage the object lives in is released too (the object itself, or the block it was
+    carved from: `obj = blk + 1`).  If the object variable has been re-pointed at another (longer-lived) object before
+    the release, nothing the function frees afterwards can make up for it.  Cleanup callbacks (functions installed in
+    a container's cleanup slot) are the disposal itself and are exempt; stack structures go out of scope."""
+    unit = P.need_fn('conf_read').unit
+    exempt = set(P.slots().get('set::cleanup', ()))
+    n = 0
+    for f in P.unit_fns(unit):
+        if f.name in exempt or f.key in exempt:
+            continue
+        sites = []
+        for s in f.calls():
+            if s.ev.get('callee') in FREES and s.ev['args']:
+                a = s.ev['args'][0]
+                while isinstance(a, dict) and a.get('castto') and a.get('k') == 'cast':
+                    a = a.get('e')
+                if isinstance(a, dict) and a.get('k') == 'mem' and a.get('arrow') and is_var(a.get('base')) and a['base'].get('sc') in ('local', 'param'):
+                    sites.append(s)
+        if not sites:
+            continue
+
+        def owner_of(rhs):
+            vs = vars_in(rhs)
+            if isinstance(rhs, dict) and rhs.get('k') in ('bin', 'cast', 'un') and len(vs) == 1:
+                return list(vs)[0]
+            return None
+
+        def on_event(st, s):
+            derived, dang = dict(st[0]), set(st[1])
+            ev = s.ev
+            if ev['k'] == 'store' and ev.get('op') == '=':
+                lhs, rhs = ev['lhs'], ev.get('rhs') or {}
+                if is_var(lhs):
+                    v = lhs['name']
+                    derived.pop(v, None)
+                    o = owner_of(rhs)
+                    if o and o != v:
+                        derived[v] = o
+                    # entries rooted at v can no longer be repaired through v
+                    dang = {(k, None if root == v else root, own) for (k, root, own) in dang}
+                elif lhs.get('k') == 'mem':
+                    k = sx(lhs)
+                    dang = {(k2, root, own) for (k2, root, own) in dang if not (k2 == k and root is not None)}
+            if ev['k'] == 'call' and ev.get('callee') in FREES and ev['args']:
+                a = ev['args'][0]
+                if is_var(a):
+                    dang = {(k, root, own) for (k, root, own) in dang if not (root == a['name'] or own == a['name'])}
+                elif isinstance(a, dict) and a.get('k') == 'mem' and a.get('arrow') and is_var(a.get('base')):
+                    v = a['base']['name']
+                    dang.add((sx(a), v, derived.get(v)))
+            return (tuple(sorted(derived.items())), frozenset(dang))
+        before, at_exit, sin, bout = f.forward(((), frozenset()), on_event, None)
+        bad = sorted({k for st in at_exit for (k, root, own) in st[1]})
+        for lj in f.calls('longjmp'):
+            bad = sorted(set(bad) | {k for st in before.get(lj.key, set()) for (k, root, own) in st[1]})
+        n += 1
+        R.ob(rule, not bad, sites[0], '%s: a member released in place is re-assigned, or its object released, before the function returns%s' % (f.name, (' (left dangling: %s)' % ', '.join(bad)) if bad else ''),
+             key='freed-field:%s' % f.name)
+    R.floor(rule, 2, 'functions releasing a member in place')
+
+
 def error_branch_reads(P, R, rule='C14.NULL.1'):
     """What the error branches of conf_read read from the parse context was set for this load: a pointer field read
     on the branch for error code c is assigned before every longjmp that raises c (or in conf_read before anything
@@ -632,7 +727,11 @@ def run(P, R, tier):
     from . import c19
     from ..report import Remap
     c19.link_insert(P, R, 'C14.LINK.1')
+    # ... and removal of a leftover must leave both neighbours consistent for the next insertion
+    c19.link_remove(P, R, 'C14.LINK.1')
     dangling_fields(P, R)
+    freed_fields(P, R)
+    ctype_subscripts(P, R)
     error_branch_reads(P, R)
     decoder_advance(P, R)
     context_init(P, R)
